@@ -321,6 +321,13 @@ def possibly_unbound(model, fi, limit=3000):
                     out.append(x)
         return out
 
+    # heads of while loops (their test node): like for loops, leaving one without entering it is not a branch this rule judges
+    while_heads = {}
+    for w in walk_no_nested(fi.node):
+        if isinstance(w, ast.While):
+            hn = cfg.node_of_stmt.get(id(w)) if hasattr(cfg, "node_of_stmt") else None
+            if hn is not None:
+                while_heads[id(hn)] = w
     found = []
     for n in cfg.nodes:
         if n.stmt is None:
@@ -356,6 +363,11 @@ def possibly_unbound(model, fi, limit=3000):
                                 break
                             decided[txt] = val
                         if not feasible:
+                            break
+                    if node.kind == "test" and nxt == "F" and id(node) in while_heads and not any(q is node for q, _ in p[:k]):
+                        inner = {sub.id for sub in ast.walk(while_heads[id(node)]) if isinstance(sub, ast.Name) and isinstance(sub.ctx, ast.Store)}
+                        if x.id in inner:
+                            bound = True
                             break
                     if node.kind == "loop" and nxt == "done" and not any(q is node for q, _ in p[:k]) and node.stmt is not None:
                         # acyclic paths leave a loop only without entering it; whether its sequence can be empty is not known here
